@@ -3,7 +3,7 @@
    Code model: Model/C01.v (Message_encode / Message_decode / Options_* / value codecs; the extended-field kernels,
    _to_minimum_bytes and the format table are Gen/*.v, regenerated from /repo on every check).
    Specification: Model/C01Rfc.v (rfc_encode, WellFormed, rfc_interp — written from the RFCs) and Model/C01Utf8.v. *)
-From Verif Require Import Lib.Py Lib.Tactics Gen.options_ext Gen.optiontypes_min Gen.optnum_table Model.C01Types Model.C01Utf8 Model.C01 Model.C01Rfc Proofs.C01Utf8 Proofs.C01Ext Proofs.C01.
+From Verif Require Import Lib.Py Lib.Tactics Gen.options_ext Gen.optiontypes_min Gen.optnum_table Model.C01Types Model.C01Utf8 Model.C01 Model.C01Rfc Proofs.C01Utf8 Proofs.C01Ext Proofs.C01 Gen.decode_handlers Proofs.C01Transport.
 From Coq Require Import Permutation Sorted.
 Open Scope Z_scope.
 
@@ -109,6 +109,13 @@ Theorem C01_decode_total : forall data, bytes_ok data = true ->
      (ext_max m = true /\ Message_encode m = Raise ValueError)).
 Proof. exact decode_total. Qed.
 Print Assumptions C01_decode_total.
+
+(* both UDP receive paths (udp6.py, generic_udp.py; extracted from source) wrap Message.decode in a try statement that
+   handles error.UnparsableMessage — by C01_decode_total the only exception that can arrive there *)
+Theorem C01_transports_catch_unparsable :
+  forallb catches_unparsable decode_sites = true /\ (2 <= length decode_sites)%nat.
+Proof. exact decode_sites_catch. Qed.
+Print Assumptions C01_transports_catch_unparsable.
 
 (* the unconditional third sentence of the property ("parsed into a message that itself round-trips") is refuted by the model,
    as it is by the code: 40 01 00 01 E0 FF FF parses, and the parsed message cannot be encoded *)
